@@ -52,7 +52,7 @@ def scale_spec():
                 nodes.append({'id': len(nodes), 'type': 'NN', 'name': f'n{len(nodes)}', 'mode': 'ok', 'read': True, 'payload': None,
                               'deps': {'list': [{'ref': j, 'fresh': False} for j in range(lo, hi)]}})
         prev = gathers
-        for _ in range(draw(st.integers(1, 3))):
+        for _ in range(draw(st.integers(2, 4))):
             nodes.append({'id': len(nodes), 'type': draw(st.sampled_from(['NN', 'N1'])), 'name': f'n{len(nodes)}', 'mode': 'ok', 'read': True,
                           'payload': None, 'deps': {'list': [{'ref': j, 'fresh': False} for j in prev]}})
             prev = [len(nodes) - 1]
